@@ -1080,7 +1080,10 @@ class yanny(OrderedDict):
         #
         # Double empty braces get replaced with empty quotes
         #
-        double_braces = re.compile(r'\{\s*\{\s*\}\s*\}')
+        # (but only as a token of their own, and not inside a quoted string).
+        #
+        double_braces = re.compile(r'(?<![^\s{])\{\s*\{\s*\}\s*\}(?![^\s}])')
+        quoted = re.compile(r'("[^"]*")')
         if len(lines) > 0:
             for line in lines.split('\n'):
                 if len(line) == 0:
@@ -1095,7 +1098,8 @@ class yanny(OrderedDict):
                 line = line.strip()
                 line = self.trailing_comment(line)
                 # line = trailing_comments.sub('',line)
-                line = double_braces.sub('""', line)
+                line = ''.join([p if k % 2 else double_braces.sub('""', p)
+                                for k, p in enumerate(quoted.split(line))])
                 #
                 # Now if the first word on the line does not match a
                 # structure definition it is a keyword/value pair
